@@ -1,3 +1,4 @@
+pub mod actors;
 pub mod cards;
 pub mod deals;
 pub mod mrank;
